@@ -81,9 +81,19 @@ DupIds == { <<[name |-> "i1", user |-> x, group |-> NONE, proc |-> NONE, exe |->
 DocsDup(lazy) == { Doc(m, al, ps, hp, <<RoleR1(<<"p1">>)>>, TRUE, is, TRUE, <<Asg1>>, TRUE) :
                m \in {"audit", "enforce"}, al \in BOOLEAN, ps \in DupPrivs, hp \in BOOLEAN, is \in DupIds }
 
+\* Slice "asg": one privilege reachable through two role assignments (same role twice, two roles sharing it,
+\* a first assignment naming only undefined identities), in both orders
+AsgPool2 == [role : {"r1", "r2", "r3"}, ids : {<<"i1">>, <<"i2">>, <<"i3">>, <<"i1", "i2">>}]
+RoleSets == { <<[name |-> "r1", privs |-> <<"p1">>], [name |-> "r2", privs |-> <<"p1">>]>>,
+              <<[name |-> "r1", privs |-> <<"p1">>], [name |-> "r2", privs |-> <<"p2">>]>>,
+              <<[name |-> "r1", privs |-> <<"p1", "p2">>]>> }
+DocsAsg(lazy) == { Doc("enforce", al, FixedPrivs, TRUE, rs, TRUE, <<IdPlain("i1", "alice"), IdPlain("i2", "bob")>>, TRUE, <<x, y>>, TRUE) :
+                     al \in BOOLEAN, rs \in RoleSets, x \in AsgPool2, y \in AsgPool2 }
+
 Universe ==
   CASE Slice = "match" -> DocsMatch(0) \X Callers \X Urls
     [] Slice = "grant" -> DocsGrant(0) \X CallersGrant \X UrlsGrant
+    [] Slice = "asg"   -> DocsAsg(0) \X CallersGrant \X [path : {P_a, P_c, P_root}, q : {Q0}]
     [] Slice = "dup"   -> DocsDup(0) \X Callers \X [path : {P_a, P_c, P_ab, P_root}, q : {Q0}]
 
 Init == case \in Universe
